@@ -440,7 +440,7 @@ func _deploy(data, isUpdate)
   ensures [C16] isUpdate ==> store.opt("snapshotCount") == old(store).opt("snapshotCount") && store.opt("snapshotEpoch") == old(store).opt("snapshotEpoch")
         && store.opt("snapshotCurrent") == old(store).opt("snapshotCurrent")
   loop 0
-    invariant 0 <= i && i <= count && count == N(old(store)) && prefix == "snapshot_"
+    invariant 0 <= i && i <= N(old(store))
     invariant forall t Int {store.opt(slotkey(t))} :: 0 <= t && t < i && old(store).has(slotkey(t)) && len(old(store).get(slotkey(t))) > 0
         ==> store.has(slotkey(t)) && conv(deser_L_Node(store.get(slotkey(t))), deser_L_oldNode(old(store).get(slotkey(t))))
     invariant forall x Bytes {store.opt(x)} :: !(isslot(x) && x[9] < i) ==> store.opt(x) == old(store).opt(x)
